@@ -37,6 +37,10 @@ RULE = ('cases: synthetic file sets (rwms 1.4/1.6/2.0, ms.dat energy density + t
         'configurations listed twice, all numbers scaled by 1e-300 ... 1e300 with signed zeros, reweighting exponents near overflow; '
         'second pass: an options kind forcing every option and rejection row onto three-replica long-chain sets, spectator numbers poisoned with nan / inf, '
         'equal-summary selections with other members, 12 replicas / > 255 configurations, counters judged:<format>:<selection> per judgement; '
+        'third pass (line coverage): read_pbp (by position), extract_t0_hd5 against the closed-form fit, Npr_matrix g5H / product, file names without '
+        'r<digits> (sort_names fallback) under five listings, openQCD 2.0 arrays of other element sizes / dimensions, gfms files with one flow, documented '
+        'rejections that need damaged or inconsistent sets (missing measurement, differing headers, unparsable numbers, unequal chunks), sfcf version 1.0 / '
+        'rep_string / silent=False / one files list for all replicas, ms5_xsf sep=\'\' and dotted names, check_idl; '
         'a file set is non-trivial when at least one read returned and every number of it was compared and the set has replicas or '
         'configurations with different digit counts; distinct = digest of (format, parameters, table)')
 ASSUMPTIONS = ['writers are validated byte-for-byte against the sample files under tests/data (openQCD 1.4 derived from the 1.6 sample, '
@@ -137,6 +141,7 @@ def setup(ctx):
     import pyerrors.input.openQCD  # noqa: F401
     import pyerrors.input.sfcf  # noqa: F401
     import pyerrors.input.hadrons  # noqa: F401
+    import pyerrors.input.misc  # noqa: F401
     PE = pe
     res = F.selfcheck(ctx.repo)
     bad = [r for r in res if not r[1]]
@@ -583,6 +588,54 @@ def judge_list(ctx, tag, res, exp, what):
     return ok
 
 
+def reject_rows_binary(ctx, rng, fmt, S, kind, read, judge):
+    """Third pass (line coverage): documented rejections of the record readers that need a damaged or inconsistent file set.
+    read(directory) -> result; each row gets its own copy of the set."""
+    nrep = len(S.reps)
+    rows = ['irregular-spacing', 'directory-missing']
+    if nrep >= 2 and kind in ('rwms', 'energy'):
+        # documented exceptions of read_rwms / the energy-density reader; the flow-observable reader takes every file by its own header
+        rows.append('replica-headers-differ')
+    if kind == 'gfms':
+        rows.append('spatial-extents-differ')
+
+    def encode(r, recs, **over):
+        if kind == 'rwms':
+            return F.encode_rwms(S.version, over.get('nfct', S.nfct), over.get('nsrc', S.nsrc), recs)[0]
+        if kind in ('energy', 'qtop'):
+            return F.encode_msdat(S.dn, S.nn, S.tmax, over.get('eps', S.eps), recs)[0]
+        return F.encode_gfms(S.zthfl, S.ncs, S.tmax, over.get('L', (S.L,) * 3), S.tol, S.cmax, recs)[0]
+
+    for row in pick_bad(rng, rows):
+        with tempfile.TemporaryDirectory(prefix='vmon_C17_', dir=TMPROOT) as d2:
+            S.write(d2, distractors=False)
+            r = S.reps[-1]
+            if row == 'irregular-spacing':
+                recs = list(S.rec[r])
+                del recs[len(recs) // 2]          # one measurement missing in the middle: the documented answer is an exception
+                data = encode(r, recs)
+            elif row == 'replica-headers-differ':
+                if kind == 'rwms':
+                    recs = [(x[0], list(x[1]) + [np.zeros((1, 1))], list(x[2]) + [np.ones((1, 1))]) + ((list(x[3]) + [np.zeros((1, 1))], list(x[4]) + [np.zeros((1, 1))]) if len(x) > 3 else ())
+                            for x in S.rec[r]]
+                    data = encode(r, recs, nfct=S.nfct + [1], nsrc=S.nsrc + [1])
+                elif kind == 'gfms':
+                    continue
+                elif rng.random() < 0.5:
+                    data = encode(r, S.rec[r], eps=S.eps * 2)
+                else:
+                    data = F.encode_msdat(S.dn + 1, S.nn, S.tmax, S.eps, S.rec[r])[0]
+            elif row == 'spatial-extents-differ':
+                data = encode(r, S.rec[r], L=(S.L, S.L, S.L + 2))
+            else:
+                data = None
+            if data is not None:
+                with open(os.path.join(d2, S.fname(r)), 'wb') as f:
+                    f.write(data)
+            target = os.path.join(d2, 'no_such_directory') if row == 'directory-missing' else d2
+            run_sel(ctx, rng, fmt, row, lambda: read(target), None, judge, {'row': row, 'replica': r}, k=2)
+
+
 def case_rwms(ctx, rng, version=None):
     S = RwmsSet(rng, ctx.tier, version=version)
     fmt = S.fmt
@@ -650,6 +703,37 @@ def case_rwms(ctx, rng, version=None):
                alt=S.expect(reps=perm, names=['lbl|r%d' % r for r in srt]))
             # (3) names permuted against the automatically sorted file list (same documented rule)
             go('names-permuted', {'names': nn}, S.expect(names=nn), alt=S.expect(names=['lbl|r%d' % r for r in srt]))
+        go('r_stop-length', {'r_stop': [cm[r0][-1]] * (nrep + 1)}, None, k=2)
+        reject_rows_binary(ctx, rng, fmt, S, 'rwms', lambda dd: S.read(dd), judge_list)
+        if S.version == '2.0':
+            # other encodings of the generic openQCD 2.0 array format: a result is judged, an exception is admissible for the
+            # undocumented ones; an unknown element size and a three-dimensional array must be rejected
+            for mode in pick_bad(rng, ['size16', 'int4', 'size2', 'dim3']):
+                with tempfile.TemporaryDirectory(prefix='vmon_C17_', dir=TMPROOT) as d3:
+                    recs = {r: S.rec[r] for r in S.reps}
+                    if mode == 'int4':
+                        recs = {r: [(x[0], x[1], [np.rint(3 * a) for a in x[2]], x[3], x[4]) for x in S.rec[r]] for r in S.reps}
+                    for r in S.reps:
+                        with open(os.path.join(d3, S.fname(r)), 'wb') as f:
+                            f.write(F.encode_rwms('2.0', S.nfct, S.nsrc, recs[r], array=mode)[0])
+                    if mode in ('size2', 'dim3'):
+                        run_sel(ctx, rng, fmt, 'array-' + mode, lambda: S.read(d3), None, judge_list, {'array': mode}, k=2)
+                    else:
+                        keep = S.rec
+                        S.rec = recs
+                        e_ = S.expect()
+                        S.rec = keep
+                        LIST.mode = 'sorted'
+                        ctx.count('judged:%s:array-%s' % (fmt, mode))
+                        try:
+                            res = S.read(d3)
+                        except Exception as e:
+                            if ctx.classify_exception(e)[0] != 'library':
+                                raise
+                            ctx.count('undocumented-representation-raises:%s:array-%s' % (fmt, mode))
+                        else:
+                            ctx.count('reads_judged')
+                            judge_list(ctx, '%s:array-%s' % (fmt, mode), res, e_, {'array': mode})
         if returned and (digits_differ(S.reps) or any(digits_differ(c) for c in cm.values())):
             ctx.nontrivial.add(S.digest())
         ctx.sample({'format': fmt, 'nfct': S.nfct, 'nsrc': S.nsrc, 'replicas': S.reps,
@@ -922,6 +1006,8 @@ def case_msdat_energy(ctx, rng):
             nn = ['lbl|r%d' % r for r in perm]
             go('files+names-permuted', {'files': [S.fname(r) for r in perm], 'names': nn}, {'reps': perm, 'names': nn})
             go('names-permuted', {'names': nn}, {'names': nn})
+        go('r_start-length', {'r_start': [1] * (nrep + 1)}, {}, k=2, must_raise=True)
+        reject_rows_binary(ctx, rng, fmt, S, 'energy', lambda dd: oq._extract_flowed_energy_density(dd, S.prefix, S.dtr_read, xmin, S.L), jf)
         if returned and (digits_differ(S.reps) or any(digits_differ(c) for c in S.traj.values())):
             ctx.nontrivial.add(S.digest())
         ctx.sample({'format': fmt, 'dn,nn,tmax,eps,L': [S.dn, S.nn, S.tmax, S.eps, S.L], 'replicas': S.reps, 'xmin': xmin,
@@ -968,6 +1054,7 @@ def case_msdat_t0(ctx, rng):
         what = {'reps': S.reps, 'which': which, 'fit_range': fr, 'xmin': xmin, 'kw': dict(kw)}
         n = run_sel(ctx, rng, fmt, which, lambda: fn(d, S.prefix, 1, xmin, S.L, fit_range=fr, **fresh(kw)), ref,
                     lambda c, tag, res, exp, w: compare_derived(c, tag, res, exp, None, w, sqrt=(which == 'w0')), what, k=2)
+        run_sel(ctx, rng, fmt, which + '-scale-not-reached', lambda: fn(d, S.prefix, 1, xmin, S.L, fit_range=fr, c=14.0), None, None, what, k=2)
         if n:
             ctx.nontrivial.add(S.digest())
         ctx.sample({'format': fmt, 'which': which, 'fit_range': fr, 'replicas': S.reps, 'reference_root': ref[0]})
@@ -1065,6 +1152,10 @@ def case_msdat_qtop(ctx, rng):
             # rule ("Alternative labeling for replicas") -> observed, not judged
             observe_names_permuted(ctx, fmt, lambda: oq.read_qtop(d, S.prefix, c, L=S.L, names=list(nn)),
                                    S.expect_qtop(c, names=nn), S.expect_qtop(c, names=['lbl|r%d' % r for r in srt]))
+        go('r_stop-length', c, {'r_stop': [cm[S.reps[0]][-1]] * (nrep + 1)}, {}, k=2, must_raise=True)
+        go('r_start-length', c, {'r_start': [1] * (nrep + 1)}, {}, k=2, must_raise=True)
+        go('qtop_sector-target-not-integer', c, {'target': 0.5}, {}, k=2, must_raise=True, reader=oq.read_qtop_sector)
+        reject_rows_binary(ctx, rng, fmt, S, 'qtop', lambda dd: oq.read_qtop(dd, S.prefix, c, L=S.L), jf)
         if returned and (digits_differ(S.reps) or any(digits_differ(x) for x in S.traj.values())):
             ctx.nontrivial.add(S.digest())
         ctx.sample({'format': fmt, 'dn,nn,tmax,eps,L': [S.dn, S.nn, S.tmax, S.eps, S.L], 'c': c, 'flow_index': S.flow_index(c), 'replicas': S.reps,
@@ -1080,7 +1171,7 @@ class Ms5Set:
     def __init__(self, rng, tier, small=False, data_rng=None, scale=1.0):
         self.tmax = int(rng.integers(2, 6)) if not small else 2
         self.qc = str(rng.choice(['dd', 'ud', 'du', 'uu']))
-        self.prefix = str(rng.choice(['ms5_xsf_T24L16', 'ensA', 'N200']))
+        self.prefix = str(rng.choice(['ms5_xsf_T24L16', 'ensA', 'N200', 'v1.2x']))      # 'v1.2x': a dot inside the ensemble name
         self.reps = gen_reps(rng, 2 if small else None)
         self.hdr = (float(rng.choice([0.125, 0.1345])), 1.0 + float(rng.random()), 0.5, 1.0)
         self.bnd = int(rng.integers(0, 3))
@@ -1215,6 +1306,10 @@ def case_ms5(ctx, rng):
         go('files', corr, {'files': [S.fname(r) for r in sub]}, {'reps': sub})
         nn = ['lbl|r%d' % r for r in S.reps]
         go('names', corr, {'names': nn}, {'names': nn})
+        # sep='': no replica part in the name, the single file is labelled with the prefix
+        r1 = S.reps[int(rng.integers(nrep))]
+        returned += run_sel(ctx, rng, fmt, 'sep-empty', lambda: oq.read_ms5_xsf(d, S.prefix, S.qc, corr, sep='', files=[S.fname(r1)]),
+                            S.expect(corr, reps=[r1], names=[S.prefix]), jf, dict(base_what, corr=corr, file=S.fname(r1)), k=2)
         for bad in pick_bad(rng, ['qc-unknown', 'corr-unknown', 'idl-none-found', 'file-missing']):
             if bad == 'qc-unknown':
                 go(bad, corr, {}, {}, k=2, must_raise=True, qc='rq')
@@ -1250,8 +1345,9 @@ SFCF_TYPES = {'f_A': 'bi', 'f_1': 'bb', 'F_V0': 'bib'}
 
 
 class SfcfSet:
-    def __init__(self, rng, tier, layout, small=False, data_rng=None, scale=1.0):
+    def __init__(self, rng, tier, layout, small=False, data_rng=None, scale=1.0, rep_sep='r', same_cfgs=False):
         self.layout = layout
+        self.rsep = rep_sep
         self.fmt = 'sfcf-' + layout
         self.version = '2.0' + {'o': '', 'c': 'c', 'a': 'a'}[layout]
         self.prefix = str(rng.choice(['data', 'ens_x', 'N200']))
@@ -1268,6 +1364,9 @@ class SfcfSet:
             if layout == 'o' and not small:
                 n = min(n, 12)
             self.cfgs[r], _ = gen_cfgs(rng, n)
+        if same_cfgs:
+            for r in self.reps:
+                self.cfgs[r] = list(self.cfgs[self.reps[0]])
         # block keys per name, in a per-set random order (all files of a set share the structure)
         self.order = {}
         for nm in self.names:
@@ -1308,9 +1407,9 @@ class SfcfSet:
             # compact files hold all names in the set's block order: hand the writer one pseudo name
             def bo(r, c, nm):
                 return [self.block(r, c, k) for k in self.corder]
-            self.info = F.write_sfcf_set(d, 'c', self.prefix, self.cfgs, bo, ['all'])
+            self.info = F.write_sfcf_set(d, 'c', self.prefix, self.cfgs, bo, ['all'], rep_sep=self.rsep)
         else:
-            self.info = F.write_sfcf_set(d, self.layout, self.prefix, self.cfgs, self.blocks_of, self.names)
+            self.info = F.write_sfcf_set(d, self.layout, self.prefix, self.cfgs, self.blocks_of, self.names, rep_sep=self.rsep)
         if distractors:
             if self.layout == 'a':
                 with open(os.path.join(d, 'other_r1.f_A'), 'w') as f:
@@ -1318,7 +1417,7 @@ class SfcfSet:
             else:
                 os.makedirs(os.path.join(d, 'other_r1'))
                 r0 = self.reps[0]
-                rd = os.path.join(d, '%s_r%d' % (self.prefix, r0))
+                rd = os.path.join(d, self.rdir(r0))
                 if self.layout == 'o':
                     os.makedirs(os.path.join(rd, 'tmp'))
                 else:
@@ -1326,10 +1425,10 @@ class SfcfSet:
                         f.write('not a measurement\n')
 
     def rdir(self, r):
-        return '%s_r%d' % (self.prefix, r)
+        return '%s_%s%d' % (self.prefix, self.rsep, r)
 
     def name(self, r, ens=None):
-        return '%s|r%d' % (ens if ens else self.prefix + '_', r)
+        return '%s|%s%d' % (ens if ens else self.prefix + '_', self.rsep, r)
 
     def cfile(self, r, c):
         return 'cfg%d' % c if self.layout == 'o' else '%s_n%d' % (self.rdir(r), c)
@@ -1352,8 +1451,14 @@ class SfcfSet:
 
     def read(self, d, key, **kw):
         nm, q, off, w, w2 = key
+        kw = dict(kw)
+        version = kw.pop('version', self.version)
+        silent = kw.pop('silent', True)
+        if self.rsep != 'r' and not kw.pop('_no_rep_string', False):
+            kw.setdefault('rep_string', self.rsep)
+        kw.pop('_no_rep_string', None)
         return PE.input.sfcf.read_sfcf(d, self.prefix, nm, quarks=q, corr_type=SFCF_TYPES[nm], noffset=off, wf=w, wf2=0 if w2 is None else w2,
-                                       version=self.version, silent=True, **kw)
+                                       version=version, silent=silent, **kw)
 
     def digest(self):
         k0 = sorted(self.vals)[0]
@@ -1408,8 +1513,79 @@ def judge_ens_name(S, ens, inner):
     return jf
 
 
+def sfcf_extra_rows(ctx, rng, S, d, key, im, go, readable):
+    """Third pass (line coverage): options and rejections of the sfcf reader no case reached."""
+    fmt = S.fmt
+    layout = S.layout
+    nrep = len(S.reps)
+    # the other version strings take the same path as 2.0 (the 1.0 output has the same layout); progress output switched on
+    go('version-1.0', key, {'version': '1.0' + S.version[3:]}, {}, im=im, k=2)
+    go('silent-false', key, {'silent': False}, {}, im=im, k=2)
+    if S.rsep != 'r':
+        # replica separator other than 'r': rep_string is required (and the directory names carry no r<digits>)
+        go('rep_string', key, {}, {}, im=im, k=3)
+        go('rep_string-missing', key, {'_no_rep_string': True}, {}, k=2, must_raise=True)
+    if layout == 'o' and all(S.cfgs[r] == S.cfgs[S.reps[0]] for r in S.reps):
+        c0 = S.cfgs[S.reps[0]]
+        pick = c0 if len(c0) <= 5 else sorted(int(x) for x in rng.choice(c0, size=int(rng.integers(5, len(c0) + 1)), replace=False))
+        names_ = ['cfg%d' % x for x in pick]
+        go('files-one-list-for-all-replicas', key, {'files': [names_[i] for i in rng.permutation(len(names_))]}, {'cfgs': {r: pick for r in S.reps}}, im=im)
+    rows = ['no-replica-directories']
+    if layout != 'a':
+        rows += ['files-mixed-types', 'files-not-a-list', 'configuration-number-unparsable', 'replica-directory-empty', 'correlator-empty']
+    else:
+        rows += ['chunks-of-unequal-length', 'gauge-name-unparsable']
+    for row in pick_bad(rng, rows):
+        if row == 'files-mixed-types':
+            go(row, key, {'files': [['cfg1'], 'cfg2'][:max(2, nrep)] if nrep <= 2 else [['cfg1'], 'cfg2', ['cfg3']]}, {}, k=2, must_raise=True)
+            continue
+        if row == 'files-not-a-list':
+            go(row, key, {'files': tuple(['cfg1', 'cfg2'])}, {}, k=2, must_raise=True)
+            continue
+        with tempfile.TemporaryDirectory(prefix='vmon_C17_', dir=TMPROOT) as d2:
+            if row == 'no-replica-directories':
+                with open(os.path.join(d2, 'readme'), 'w') as f:
+                    f.write('x')
+            else:
+                keep = S.info
+                S.write(d2, distractors=False)
+                S.info = keep
+                r0 = S.reps[0]
+                if row == 'configuration-number-unparsable':
+                    if layout == 'o':
+                        os.makedirs(os.path.join(d2, S.rdir(r0), 'cfgX'))
+                    else:
+                        with open(os.path.join(d2, S.rdir(r0), S.rdir(r0) + '_nX'), 'w') as f:
+                            f.write('junk\n')
+                elif row == 'replica-directory-empty':
+                    os.makedirs(os.path.join(d2, '%s_%s%d' % (S.prefix, S.rsep, 77)))
+                elif row == 'correlator-empty':
+                    # the file the reader inspects for the structure (first configuration of the first replica): the wanted block has no data lines
+                    rfirst = sorted(S.reps)[0]
+                    c0 = S.cfgs[rfirst][0]
+                    rel = os.path.join(S.rdir(rfirst), 'cfg%d' % c0, key[0]) if layout == 'o' else os.path.join(S.rdir(rfirst), S.cfile(rfirst, c0))
+                    inf = S.info[rel]
+                    b_ = [x for x in inf['blocks'] if x['key'] == key][0]
+                    txt = open(os.path.join(d2, rel)).read()
+                    txt = txt[:b_['spans'][0][0]] + txt[b_['data_end']:]
+                    open(os.path.join(d2, rel), 'w').write(txt)
+                elif row == 'chunks-of-unequal-length':
+                    p = os.path.join(d2, '%s.%s' % (S.rdir(r0), key[0]))
+                    txt = open(p).read()
+                    i = txt.index('[run]', 10)          # second chunk: one more header line
+                    txt = txt[:i] + txt[i:].replace('user        ', 'comment     extra line\nuser        ', 1)
+                    open(p, 'w').write(txt)
+                elif row == 'gauge-name-unparsable':
+                    p = os.path.join(d2, '%s.%s' % (S.rdir(r0), key[0]))
+                    txt = open(p).read()
+                    c1 = S.cfgs[r0][1]
+                    txt = txt.replace('gauge_name  /%s_n%d\n' % (S.rdir(r0), c1), 'gauge_name  /%s_nX\n' % S.rdir(r0), 1)
+                    open(p, 'w').write(txt)
+            run_sel(ctx, rng, fmt, row, lambda: S.read(d2, key), None, None, {'row': row}, k=2)
+
+
 def case_sfcf(ctx, rng, layout):
-    S = SfcfSet(rng, ctx.tier, layout)
+    S = SfcfSet(rng, ctx.tier, layout, rep_sep='q' if rng.random() < 0.3 else 'r', same_cfgs=bool(layout == 'o' and rng.random() < 0.4))
     fmt = S.fmt
     sf = PE.input.sfcf
     with tempfile.TemporaryDirectory(prefix='vmon_C17_', dir=TMPROOT) as d:
@@ -1518,6 +1694,8 @@ def case_sfcf(ctx, rng, layout):
                     kw = {'im': True} if mim else {}
                     if mens:
                         kw['ens_name'] = mens
+                    if S.rsep != 'r':
+                        kw['rep_string'] = S.rsep
                     return sf.read_sfcf_multi(d, S.prefix, list(multi_names), quarks_list=[q], corr_type_list=list(multi_types), noffset_list=[off],
                                               wf_list=list(wl), wf2_list=list(w2l), version=S.version, silent=True, keyed_out=keyed, **kw)
 
@@ -1553,6 +1731,7 @@ def case_sfcf(ctx, rng, layout):
                 go(bad, (key[0], key[1], key[2], 7, key[4]), {}, {}, k=2, must_raise=True)
             elif bad == 'files-type':
                 go(bad, key, {'files': [[range(1, 11, 2)] for _ in S.reps]}, {}, k=2, must_raise=True)
+        sfcf_extra_rows(ctx, rng, S, d, key, im, go, readable)
         if nrep >= 2:
             # permuted names: the documentation promises no pairing rule -> observed
             perm = permuted(rng, S.reps)
@@ -1708,7 +1887,7 @@ def case_hadrons(ctx, rng):
         if len(c) >= 7:
             pick = sorted(int(x) for x in rng.choice(c, size=int(rng.integers(5, len(c))), replace=False))
             go('idl-list', k, lambda: hd.read_meson_hd5(d, S.stem, S.ens, meson='meson_%d' % k, idl=list(pick)), idl=pick)
-        for bad in pick_bad(rng, ['idl-missing-configuration', 'uneven-without-idl', 'attrs-ambiguous', 'attrs-absent', 'gammas-length', 'stem-absent']):
+        for bad in pick_bad(rng, ['idl-missing-configuration', 'uneven-without-idl', 'attrs-ambiguous', 'attrs-absent', 'gammas-length', 'stem-absent', 'attrs-invalid-type', 'entry-missing-in-a-later-file']):
             if bad == 'idl-missing-configuration':
                 go(bad, k, lambda: hd.read_meson_hd5(d, S.stem, S.ens, idl=list(c) + [c[-1] + 1]), kk=2, must_raise=True)
             elif bad == 'uneven-without-idl' and not even:
@@ -1721,6 +1900,14 @@ def case_hadrons(ctx, rng):
                 go(bad, k, lambda: hd.read_meson_hd5(d, S.stem, S.ens, gammas=('Gamma5',)), kk=2, must_raise=True)
             elif bad == 'stem-absent':
                 go(bad, k, lambda: hd.read_meson_hd5(d, 'nothing_here', S.ens), kk=2, must_raise=True)
+            elif bad == 'attrs-invalid-type':
+                go(bad, k, lambda: hd.read_hd5(os.path.join(d, S.stem), S.ens, 'meson', attrs='meson_0', idl=the_idl(base_idl) if base_idl else None), kk=2, must_raise=True)
+            elif bad == 'entry-missing-in-a-later-file':
+                with tempfile.TemporaryDirectory(prefix='vmon_C17_', dir=TMPROOT) as d2:
+                    S.write(d2, distractors=False)
+                    cm_ = S.cfgs[len(S.cfgs) // 2]
+                    F.write_hadrons_file(os.path.join(d2, S.fname(cm_)), 'meson', [(S.attrs[j], S.vals[cm_][j]) for j in range(S.K - 1)])
+                    go(bad, S.K - 1, lambda: hd.read_hd5(os.path.join(d2, S.stem), S.ens, 'meson', attrs=S.K - 1, idl=the_idl(base_idl) if base_idl else None), kk=2, must_raise=True)
         if returned and digits_differ(S.cfgs):
             ctx.nontrivial.add(S.digest())
         ctx.sample({'format': fmt, 'stem': S.stem, 'T': S.T, 'entries': S.attrs, 'configurations': S.cfgs[:3] + ['...', S.cfgs[-1]], 'reads_returned': returned})
@@ -1899,6 +2086,30 @@ def case_gfms(ctx, rng):
                alt_ekw={'reps': perm, 'names': ['lbl|r%d' % r for r in srt]})
             observe_names_permuted(ctx, fmt, lambda: oq.read_qtop(d, S.prefix, c, version='sfqcd', names=list(nn)),
                                    S.expect(c, names=nn), S.expect(c, names=['lbl|r%d' % r for r in srt]))
+        go('r_start-length', c, {'r_start': [1] * (nrep + 1)}, {}, k=2, must_raise=True)
+        reject_rows_binary(ctx, rng, fmt, S, 'gfms', lambda dd: oq.read_qtop(dd, S.prefix, c, version='sfqcd', Zeuthen_flow=True), jf)
+        if coupling:
+            run_sel(ctx, rng, fmt, 'gf_coupling-wilson-flow', lambda: oq.read_gf_coupling(d, S.prefix, 0.3, Zeuthen_flow=False), None, None, dict(base_what), k=2)
+        elif S.tmax != S.L + 1 and S.cmax >= 0.3:
+            run_sel(ctx, rng, fmt, 'gf_coupling-T-not-L', lambda: oq.read_gf_coupling(d, S.prefix, 0.3), None, None, dict(base_what), k=2)
+        # a file that holds the Wilson flow only (zthfl != 2): eight observables per flow time.  The Wilson read has no data to take
+        # (the reader looks at positions 8..15) and must not invent any; asking for the first block returns the stored numbers.
+        with tempfile.TemporaryDirectory(prefix='vmon_C17_', dir=TMPROOT) as d4:
+            for r in S.reps:
+                with open(os.path.join(d4, S.fname(r)), 'wb') as f:
+                    f.write(F.encode_gfms(1, S.ncs, S.tmax, (S.L,) * 3, S.tol, S.cmax, [(nc, A[:, :8]) for nc, A in S.rec[r]])[0])
+            run_sel(ctx, rng, fmt, 'single-flow-file-first-block', lambda: oq.read_qtop(d4, S.prefix, c, version='sfqcd', Zeuthen_flow=True),
+                    {'table': S.expect(c, zeuthen=True), 'tag': TAG, 'also': None}, jf, dict(base_what, zthfl=1), k=2)
+            LIST.mode = 'sorted'
+            ctx.count('judged:%s:single-flow-file-second-block' % fmt)
+            try:
+                r_ = oq.read_qtop(d4, S.prefix, c, version='sfqcd')
+                ctx.ev()
+                ctx.violation(fmt + ':single-flow-file-second-block:accepted', {'N': r_.N})
+            except Exception as e:
+                if ctx.classify_exception(e)[0] != 'library':
+                    raise
+                ctx.count('reads_raised_as_required')
         if returned and (digits_differ(S.reps) or any(digits_differ(x) for x in S.traj.values())):
             ctx.nontrivial.add(S.digest())
         ctx.sample({'format': fmt, 'ncs,tmax,L,cmax': [S.ncs, S.tmax, S.L, S.cmax], 'c': c, 'replicas': S.reps, 'coupling': coupling,
@@ -2268,6 +2479,8 @@ def case_hard(ctx, rng, fmt):
                 f.write(b'\2' * 40)
             hard(ctx, rng, fmt, 'postfix-lookalike', io, lambda: io.read(d), full, dict(base_what, lookalike=os.path.basename(junk)))
             os.remove(junk)
+            if fmt.startswith('rwms'):
+                hard(ctx, rng, fmt, 'postfix-omitted', io, lambda: PE.input.openQCD.read_rwms(d, S.prefix, version=S.version), full, base_what)
         # ---- 1: representations of the selections
         nrep = len(S.reps) if hasattr(S, 'reps') else 1
         if io.family == 'openqcd':
@@ -2567,7 +2780,7 @@ DIAGRAMS = ['direct', 'box', 'cross', 'triangle']
 
 def even_cfgs(rng, tier):
     # many small hdf5 datasets per configuration: short chains keep the quick tier fast (thorough: up to 12)
-    n = int(rng.integers(6, 9)) if tier == 'quick' else int(rng.integers(5, 13))
+    n = int(rng.integers(6, 8)) if tier == 'quick' else int(rng.integers(5, 13))
     c, kind = gen_cfgs(rng, n, kinds=('contig', 'strided'))
     return c
 
@@ -2596,6 +2809,7 @@ class DistilSet:
                 F.write_distillation_file(os.path.join(sub, '%s.%d.h5' % (st, c)), inputs, {dg: self.raw[(st, c, dg)] for dg in DIAGRAMS}, self.Nt)
         with open(os.path.join(d, 'notes.txt'), 'w') as f:
             f.write('x')
+        os.makedirs(os.path.join(d, 'data.%d' % self.cfgs[0], 'logs'))     # not a measurement file: must be skipped
 
     def ident(self, st):
         return F.distillation_identifier(self.stems[st])
@@ -2721,6 +2935,24 @@ def case_distil(ctx, rng):
             go('idl-range', perm[:2], idl=range(c[i], c[j] + 1, stp))
             pick = sorted(int(v) for v in rng.choice(c, size=int(rng.integers(5, len(c))), replace=False))
             go('idl-list', ['triangle', x], idl=pick)
+        # a measurement file missing in one configuration directory: the documented behaviour is to skip that stem
+        import copy
+        import shutil
+        with tempfile.TemporaryDirectory(prefix='vmon_C17_', dir=TMPROOT) as d2:
+            S.write(d2)
+            gone = sorted(S.stems)[-1]
+            cm_ = S.cfgs[len(S.cfgs) // 2]
+            os.remove(os.path.join(d2, 'data.%d' % cm_, '%s.%d.h5' % (gone, cm_)))
+            S2 = copy.copy(S)
+            S2.stems = {k_: v for k_, v in S.stems.items() if k_ != gone}
+            returned += run_sel(ctx, rng, fmt, 'file-missing-in-one-configuration', lambda: hd.read_DistillationContraction_hd5(d2, S.ens, diagrams=['box', 'triangle']), True,
+                                judge_distil(S2, ['box', 'triangle']), dict(base_what, missing=gone, cfg=cm_), k=-1)
+            # inversions on a subset of the time slices only: documented exception
+            for st_, inputs in S.stems.items():
+                F.write_distillation_file(os.path.join(d2, 'data.%d' % S.cfgs[0], '%s.%d.h5' % (st_, S.cfgs[0])), inputs, {dg: S.raw[(st_, S.cfgs[0], dg)] for dg in DIAGRAMS}, S.Nt,
+                                          time_sources='0 4 8')
+            shutil.copy(os.path.join(d, 'data.%d' % cm_, '%s.%d.h5' % (gone, cm_)), os.path.join(d2, 'data.%d' % cm_))
+            run_sel(ctx, rng, fmt, 'time-sources-not-all', lambda: hd.read_DistillationContraction_hd5(d2, S.ens), None, None, base_what, k=-1)
         for bad in ['diagram-unknown', 'idl-missing-configuration', 'diagram-listed-twice']:
             if bad == 'diagram-unknown':
                 go(bad, ['direct', 'pentagon'], must_raise=True)
@@ -2852,6 +3084,47 @@ def judge_npr(S, keys, idl=None):
     return jf
 
 
+def npr_matrix_methods(ctx, rng, S, fn, d):
+    """Npr_matrix objects handed out by the readers: g5H exchanges the momenta and keeps the entries; the matrix product
+    propagates the momenta, rejects contradicting ones, and its central values are the products of the stored means."""
+    fmt = S.fmt
+    hdm = PE.input.hadrons
+    LIST.mode = 'sorted'
+    res = fn(d, S.stem, S.ens)
+    mats = [(None, res)] if S.kind == 'externalleg' else [(g, res[g]) for g in S.labels[:2]]
+    ctx.count('judged:%s:npr_matrix-methods' % fmt)
+    for name, m in mats:
+        g = m.g5H
+        ctx.ev()
+        ok = (g.mom_in is m.mom_out or np.array_equal(g.mom_in, m.mom_out)) and np.array_equal(g.mom_out, m.mom_in) and all(g[i_] is m[i_] for i_ in np.ndindex(*S.shape))
+        if not ok:
+            ctx.violation(fmt + ':g5H', {'mom_in': repr(g.mom_in), 'mom_out': repr(g.mom_out)})
+    if S.shape[2] != S.shape[3]:
+        return
+    (na, A), (nb, B) = mats[0], mats[-1]
+    P = A @ B
+    ctx.ev()
+    if not np.array_equal(P.mom_in, np.array(S.p_in, dtype=float)) or (S.kind == 'bilinear' and not np.array_equal(P.mom_out, np.array(S.p_out, dtype=float))):
+        ctx.violation(fmt + ':matmul-momenta', {'mom_in': repr(P.mom_in), 'mom_out': repr(getattr(P, 'mom_out', None))})
+    ma = np.mean([S.matrix(c, na) for c in S.cfgs], axis=0)
+    mb = np.mean([S.matrix(c, nb) for c in S.cfgs], axis=0)
+    want = ma @ mb
+    for idx in np.ndindex(*P.shape):
+        ctx.ev()
+        got = complex(P[idx].real.value, P[idx].imag.value)
+        if abs(got - want[idx]) > 1e-12 * max(1.0, float(np.max(np.abs(want)))):
+            ctx.violation(fmt + ':matmul-central-value', {'index': list(idx), 'got': repr(got), 'exp': repr(complex(want[idx]))})
+            break
+    other = hdm.Npr_matrix(B, mom_in=np.array(S.p_in, dtype=float) + 1.0)
+    ctx.ev()
+    try:
+        A @ other
+        ctx.violation(fmt + ':matmul-contradicting-momenta:accepted', {})
+    except Exception as e:
+        if ctx.classify_exception(e)[0] != 'library':
+            raise
+
+
 def case_npr(ctx, rng, kind):
     S = NprSet(rng, ctx.tier, kind)
     fmt = S.fmt
@@ -2881,6 +3154,8 @@ def case_npr(ctx, rng, kind):
                                 dict(base_what, keys=[str(x) for x in kk][:8], idl=None if idl is None else list(idl)[:6]), k=k)
 
         go('all', k=-2)
+        if kind != 'fourquark':
+            npr_matrix_methods(ctx, rng, S, fn, d)
         c = S.cfgs
         stp = c[1] - c[0]
         if len(c) >= 6:
@@ -2949,14 +3224,305 @@ def case_npr(ctx, rng, kind):
         ctx.sample({'format': fmt, 'shape': S.shape, 'configurations': S.cfgs[:3] + ['...', S.cfgs[-1]], 'reads_returned': returned})
 
 
+# ------------------------------------------------------------------------------------------------
+# third hardening pass: entry points no case reached (line coverage): read_pbp, extract_t0_hd5, sort_names fallback
+# ------------------------------------------------------------------------------------------------
+class PbpSet(RwmsSet):
+    """<psibar psi> files read by read_pbp: layout of an openQCD 1.6 ms1 file; reduction: product over the factors of the
+    source average of the second block (no exponential)."""
+
+    def __init__(self, rng, tier, small=False, canonical=None):
+        RwmsSet.__init__(self, rng, tier, small=small, version='1.6')
+        self.fmt = 'pbp'
+        self.postfix = 'pbp'
+        self.prefix = str(rng.choice(['ensA', 'N200', 'pbp_']))
+        # read_pbp numbers the measurements by position; canonical files carry the trajectory numbers 1..N
+        self.canonical = bool(rng.random() < 0.6) if canonical is None else canonical
+        if self.canonical:
+            for r in self.reps:
+                n = len(self.traj[r])
+                self.traj[r] = list(range(1, n + 1))
+                self.rec[r] = [(i + 1,) + tuple(rec[1:]) for i, rec in enumerate(self.rec[r])]
+
+    def values(self, r, nrec=None):
+        recs = self.rec[r] if nrec is None else self.rec[r][:nrec]
+        out = []
+        for rec in recs:
+            v = []
+            for i in range(self.nrw):
+                p = 1.0
+                for row in np.asarray(rec[2][i], dtype=float):
+                    p *= float(np.mean(row))
+                v.append(p)
+            out.append((rec[0], v))
+        return out
+
+    def expect(self, reps=None, r_start=None, r_stop=None, nrec=None):
+        """Configuration number = trajectory number stored in the file; r_start / r_stop are configuration numbers."""
+        reps = self.reps if reps is None else reps
+        out = [dict() for _ in range(self.nrw)]
+        for k, r in enumerate(reps):
+            vals = self.values(r, None if nrec is None else nrec.get(r))
+            cfgs = [v[0] for v in vals]
+            lo = cfgs[0] if (r_start is None or not r_start[k]) else r_start[k]
+            hi = cfgs[-1] if (r_stop is None or r_stop[k] is None) else r_stop[k]
+            sel = [c for c in cfgs if lo <= c <= hi]
+            if len(sel) < 5:
+                return None
+            for i in range(self.nrw):
+                out[i][self.name(r)] = {c: v[1][i] for c, v in zip(cfgs, vals) if c in sel}
+        return out
+
+    def expect_positional(self, **kw):
+        """What read_pbp documents nothing about and does: measurements numbered 1, 2, ... by position in what was kept."""
+        exp = self.expect(**kw)
+        return None if exp is None else [{n: dict(zip(range(1, len(t) + 1), [t[c] for c in sorted(t)])) for n, t in e.items()} for e in exp]
+
+    def read(self, d, **kw):
+        return PE.input.misc.read_pbp(d, self.prefix, **kw)
+
+    def write(self, d, distractors=True):
+        RwmsSet.write(self, d, distractors=False)
+        if distractors:
+            with open(os.path.join(d, 'other' + self.fname(self.reps[0])[len(self.prefix):]), 'wb') as f:
+                f.write(b'\\1' * 31)
+            with open(os.path.join(d, self.fname(self.reps[0])[:-4] + '.txt'), 'wb') as f:
+                f.write(b'junk')
+
+
+def case_pbp(ctx, rng):
+    S = PbpSet(rng, ctx.tier)
+    fmt = 'pbp'
+    with tempfile.TemporaryDirectory(prefix='vmon_C17_', dir=TMPROOT) as d:
+        S.write(d)
+        ctx.count('file_sets')
+        ctx.cell('set', fmt, 'reps%d' % len(S.reps), 'canonical' if S.canonical else 'stored-numbers-not-1..N')
+        nrep = len(S.reps)
+        returned = 0
+        what = {'reps': S.reps, 'nfct': S.nfct, 'nsrc': S.nsrc, 'canonical_numbering': S.canonical, 'traj_first': {r: S.traj[r][:2] for r in S.reps}}
+
+        def renumbered(exp):
+            # named cause: measurements numbered 1, 2, ... by their position in what was kept
+            return None if exp is None else [{n: dict(zip(range(1, len(t) + 1), [t[c] for c in sorted(t)])) for n, t in e.items()} for e in exp]
+
+        def go(sel, kw, exp, k=3, alt_tag=None):
+            # pbp.dat is not among the formats C17 enumerates and read_pbp documents no numbering: the measurements are judged by
+            # position (numbers, names, replica order, selection); that the stored trajectory numbers are not used and that the
+            # numbering restarts at 1 after r_start is counted as an observation, not judged
+            nonlocal returned
+            if alt_tag and exp is not None:
+                ctx.count(alt_tag + '(observation)')
+                exp = renumbered(exp)
+            returned += run_sel(ctx, rng, fmt, sel, lambda: S.read(d, **fresh(kw)), exp, judge_list, dict(what, kw=dict(kw)), k=k)
+
+        go('all' if S.canonical else 'all-stored-numbers-not-1..N', {}, S.expect(), alt_tag=None if S.canonical else 'pbp:stored-trajectory-numbers-ignored')
+        go('print_err', {'print_err': True}, S.expect(), k=2, alt_tag=None if S.canonical else 'pbp:stored-trajectory-numbers-ignored')
+        if S.canonical:
+            win = {r: pick_window(rng, S.traj[r]) for r in S.reps}
+            if all(w is not None for w in win.values()):
+                rs, re_ = [win[r][0] for r in S.reps], [win[r][1] for r in S.reps]
+                go('r_stop', {'r_stop': re_}, S.expect(r_stop=re_))
+                if any(x > 1 for x in rs):
+                    go('r_start', {'r_start': rs, 'r_stop': re_}, S.expect(r_start=rs, r_stop=re_), alt_tag='pbp:r_start:numbering-restarts-at-1')
+                go('r_start-first', {'r_start': [1] * nrep}, S.expect(), k=2)
+        for bad in pick_bad(rng, ['r_start-length', 'r_stop-length', 'directory-empty', 'replica-header-mismatch']):
+            if bad == 'r_start-length':
+                go(bad, {'r_start': [1] * (nrep + 1)}, None, k=2)
+            elif bad == 'r_stop-length':
+                go(bad, {'r_stop': [5] * (nrep + 1)}, None, k=2)
+            elif bad == 'directory-empty':
+                run_sel(ctx, rng, fmt, bad, lambda: PE.input.misc.read_pbp(os.path.join(d, 'nothing'), S.prefix), None, judge_list, what, k=2)
+            elif nrep >= 2:
+                with tempfile.TemporaryDirectory(prefix='vmon_C17_', dir=TMPROOT) as d2:
+                    S.write(d2, distractors=False)
+                    r1 = S.reps[1]
+                    data, _ = F.encode_rwms('1.6', S.nfct + [1], S.nsrc + [1], [(rec[0], list(rec[1]) + [np.zeros((1, 1))], list(rec[2]) + [np.ones((1, 1))]) for rec in S.rec[r1]])
+                    with open(os.path.join(d2, S.fname(r1)), 'wb') as f:
+                        f.write(data)
+                    run_sel(ctx, rng, fmt, bad, lambda: PE.input.misc.read_pbp(d2, S.prefix), None, judge_list, what, k=2)
+        if returned and (digits_differ(S.reps) or any(digits_differ(c) for c in S.traj.values())):
+            ctx.nontrivial.add(S.digest())
+        ctx.sample({'format': fmt, 'nfct': S.nfct, 'nsrc': S.nsrc, 'replicas': S.reps, 'canonical_numbering': S.canonical, 'reads_returned': returned})
+
+
+class FlowHd5Set:
+    fmt = 'hadrons-flow'
+
+    def __init__(self, rng, tier):
+        self.stem = str(rng.choice(['flow_obs', 'wflow.run1']))
+        self.ens = str(rng.choice(['ensF', 'ensF|r1']))
+        n = n_cfg(rng, tier)
+        self.cfgs, _ = gen_cfgs(rng, max(8, min(n, 16)), kinds=('contig', 'strided'))
+        self.nt = int(rng.integers(9, 14))
+        self.ts = [round(0.05 * (k + 1) * int(rng.choice([1, 2])), 6) for k in range(self.nt)]
+        self.ts = sorted(set(self.ts))
+        self.nt = len(self.ts)
+        self.t0 = self.ts[self.nt // 2] + 0.37 * (self.ts[1] - self.ts[0])
+        src = F.Distinct(rng, 2 * self.nt * len(self.cfgs) + 8, -1.0, 1.0)
+        # t^2 E = 0.3 t / t0 with 5 % distinct noise; the plaquette definition is scaled so that both cross 0.3 inside the range
+        self.data = {c: {'Clover energy density': np.array([0.3 * t / self.t0 for t in self.ts]) * (1 + 0.05 * src.take(self.nt)),
+                         'Plaquette energy density': np.array([0.3 * t / (0.9 * self.t0) for t in self.ts]) * (1 + 0.05 * src.take(self.nt))} for c in self.cfgs}
+        self.order = ['Clover energy density', 'Plaquette energy density']
+        if rng.random() < 0.5:
+            self.order = self.order[::-1]
+
+    def write(self, d, break_times_at=None):
+        for c in self.cfgs:
+            ts = list(self.ts)
+            if break_times_at == c:
+                ts[-1] += 0.5
+            ent = [('Flow time', ts)] + [(o, self.data[c][o]) for o in self.order] + [('Topological charge', np.zeros(self.nt))]
+            F.write_flowobs_file(os.path.join(d, '%s.%d.h5' % (self.stem, c)), ent)
+
+    def tables(self, obs, idl=None):
+        cl = self.cfgs if idl is None else [c for c in self.cfgs if c in set(idl)]
+        if len(cl) < 8:
+            return None
+        return [{self.ens: {c: float(self.data[c][obs][k]) - 0.3 for c in cl}} for k in range(self.nt)]
+
+    def digest(self):
+        return digest(self.fmt, self.cfgs, self.ts, self.data[self.cfgs[0]]['Clover energy density'])
+
+
+def case_flow_hd5(ctx, rng):
+    S = FlowHd5Set(rng, ctx.tier)
+    fmt = S.fmt
+    hd = PE.input.hadrons
+    with tempfile.TemporaryDirectory(prefix='vmon_C17_', dir=TMPROOT) as d:
+        S.write(d)
+        ctx.count('file_sets')
+        ctx.cell('set', fmt)
+        what = {'cfgs': S.cfgs[:3] + ['...', S.cfgs[-1]], 'flow_times': S.ts[:3], 'order_in_file': S.order}
+        returned = 0
+        for obs in S.order:
+            fr = int(rng.choice([2, 3]))
+            ref = ref_root_fit(S.ts, S.tables(obs), fr)
+            if ref is None or ref == 'negative-slice':
+                ctx.count('t0_sets_without_usable_crossing')
+                continue
+            sel = 'clover' if obs.startswith('Clover') else 'plaquette'
+            returned += run_sel(ctx, rng, fmt, sel, lambda: hd.extract_t0_hd5(d, S.stem, S.ens, obs=obs, fit_range=fr), ref,
+                                lambda c, tag, res, e, w: compare_derived(c, tag, res, e, None, w), dict(what, obs=obs, fit_range=fr), k=-2)
+        # idl
+        c = S.cfgs
+        if len(c) >= 10:
+            stp = c[1] - c[0]
+            sub = range(c[1], c[-1] + 1, stp)
+            tabs = S.tables('Clover energy density', idl=list(sub))
+            ref = ref_root_fit(S.ts, tabs, 2) if tabs else None
+            if ref not in (None, 'negative-slice'):
+                returned += run_sel(ctx, rng, fmt, 'idl-range', lambda: hd.extract_t0_hd5(d, S.stem, S.ens, fit_range=2, idl=sub), ref,
+                                    lambda cx, tag, res, e, w: compare_derived(cx, tag, res, e, None, w), dict(what, idl=list(sub)[:5]), k=-1)
+        run_sel(ctx, rng, fmt, 'observable-unknown', lambda: hd.extract_t0_hd5(d, S.stem, S.ens, obs='Wilson energy density'), None, None, what, k=-1)
+        with tempfile.TemporaryDirectory(prefix='vmon_C17_', dir=TMPROOT) as d2:
+            S.write(d2, break_times_at=S.cfgs[len(S.cfgs) // 2])
+            run_sel(ctx, rng, fmt, 'flow-times-differ-between-files', lambda: hd.extract_t0_hd5(d2, S.stem, S.ens), None, None, what, k=-1)
+            S.write(d2)
+            cm_ = S.cfgs[len(S.cfgs) // 2]
+            F.write_flowobs_file(os.path.join(d2, '%s.%d.h5' % (S.stem, cm_)), [('Flow time', S.ts), (S.order[0], S.data[cm_][S.order[0]])])
+            run_sel(ctx, rng, fmt, 'observable-missing-in-a-later-file', lambda: hd.extract_t0_hd5(d2, S.stem, S.ens, obs=S.order[1]), None, None, what, k=-1)
+        if returned:
+            ctx.nontrivial.add(S.digest())
+        ctx.sample({'format': fmt, 'configurations': S.cfgs[:3] + ['...', S.cfgs[-1]], 'n_flow_times': S.nt, 'reads_returned': returned})
+
+
+def case_fallback_names(ctx, rng, which):
+    """File names that carry neither r<digits> nor id<digits>: sort_names falls back to the first number that differs.
+    Replica numbers 1, 2, 10 (and 9, 10, 100): the order must be numeric under every directory listing."""
+    v = str(rng.choice(['1.4', '1.6', '2.0']))
+    FORCE.update(nrep=3)
+    try:
+        S = RwmsSet(rng, ctx.tier, version=v) if which == 'rwms' else MsdatSet(rng, ctx.tier)
+    finally:
+        FORCE.update(nrep=None)
+    S.prefix = str(rng.choice(['ensB', 'lat_b', 'cnfgs']))
+    sep = str(rng.choice(['_', '-', 's']))
+    post = S.postfix if which == 'rwms' else 'ms'
+    S.fname = lambda r: '%s%s%d.%s.dat' % (S.prefix, sep, r, post)
+    fmt = ('rwms-%s' % v if which == 'rwms' else 'ms.dat-qtop')
+    names = ['lbl|s%d' % r for r in S.reps]
+    with tempfile.TemporaryDirectory(prefix='vmon_C17_', dir=TMPROOT) as d:
+        S.write(d, distractors=False)
+        ctx.count('file_sets')
+        ctx.cell('set', fmt, 'names-without-r')
+        what = {'files': [S.fname(r) for r in S.reps], 'class': 'sort_names fallback'}
+        if which == 'rwms':
+            call = lambda: S.read(d, names=list(names))   # noqa: E731
+            exp, jf = S.expect(names=names), judge_list
+            run_sel(ctx, rng, fmt, 'files-without-r-pattern-no-names', lambda: S.read(d), None, judge_list, what, k=2)
+        else:
+            c = S.c_for_index(int(rng.integers(0, S.nn + 1)))
+            jf = judge_qtop(S)
+            oq = PE.input.openQCD
+            call = lambda: oq.read_qtop(d, S.prefix, c, L=S.L, names=list(names))   # noqa: E731
+            exp = {'table': S.expect_qtop(c, names=names), 'tag': {'T': S.tmax - 1, 'L': S.L}}
+            run_sel(ctx, rng, fmt, 'files-without-r-pattern-no-names', lambda: oq.read_qtop(d, S.prefix, c, L=S.L), None, jf, what, k=2)
+        # the same read under every kind of listing; the outcomes must all be the right one
+        outcomes = {}
+        n = 0
+        modes = [('sorted', 0), ('reversed', 0)] + [('perm', int(rng.integers(1, 2 ** 31))) for _ in range(3)]
+        for mode, seed in modes:
+            LIST.mode, LIST.seed = mode, seed
+            ctx.count('judged:%s:files-without-r-pattern' % fmt)
+            ctx.count('reads_judged')
+            ctx.ev()
+            try:
+                res = call()
+            except Exception as e:
+                LIST.mode = 'sorted'
+                if ctx.classify_exception(e)[0] != 'library':
+                    raise
+                outcomes['%s:%d' % (mode, seed)] = 'raises ' + type(e).__name__
+                continue
+            LIST.mode = 'sorted'
+            t = ctx.trial()
+            jf(t, fmt, res, exp, what)
+            outcomes['%s:%d' % (mode, seed)] = 'right' if not t.violations else 'wrong: ' + t.violations[0]['mechanism']
+            n += 1
+        if any(v != 'right' for v in outcomes.values()):
+            ctx.violation('sort_names-fallback:order-depends-on-directory-listing', {'files': what['files'], 'outcome_per_listing': outcomes})
+        if n:
+            ctx.nontrivial.add(digest('fallback', S.digest()))
+        ctx.sample({'format': fmt, 'class': 'file names without r<digits>', 'files': [S.fname(r) for r in S.reps]})
+
+
+def case_check_idl(ctx, rng):
+    """utils.check_idl (helper of the readers, documented: returns the missing configurations as a comma separated string)."""
+    ut = PE.input.utils
+    for _ in range(6):
+        n = int(rng.integers(5, 30))
+        idl, _k = gen_cfgs(rng, n)
+        form = str(rng.choice(['list', 'range']))
+        if form == 'range' and len(set(np.diff(idl))) == 1:
+            idl = range(idl[0], idl[-1] + 1, idl[1] - idl[0])
+        want = sorted(set(int(x) for x in rng.integers(min(idl) - 3, max(idl) + 4, size=int(rng.integers(1, 12)))))
+        missing = [c for c in want if c not in idl]
+        ctx.count('judged:utils:check_idl')
+        ctx.ev()
+        if not missing:
+            try:
+                r = ut.check_idl(idl, want)
+                ctx.count('utils:check_idl:nothing-missing:returns-' + type(r).__name__)
+            except Exception as e:
+                if ctx.classify_exception(e)[0] != 'library':
+                    raise
+                ctx.count('utils:check_idl:nothing-missing:raises-%s(observation)' % type(e).__name__)
+            continue
+        got = ut.check_idl(idl, want)
+        if got != ','.join(str(c) for c in missing):
+            ctx.violation('utils:check_idl:missing-configurations', {'idl': list(idl)[:10], 'asked': want, 'got': got, 'exp': missing})
+    ctx.nontrivial.add(digest('check_idl', ctx.case))
+
+
 def plan(tier):
     m = 1 if tier == 'quick' else 8
     h = len(HARD_FMTS)
     return [('rwms', 75 * m), ('msdat_energy', 40 * m), ('msdat_t0', 36 * m), ('msdat_qtop', 40 * m), ('gfms', 40 * m), ('ms5', 40 * m),
             ('sfcf_o', 32 * m), ('sfcf_c', 40 * m), ('sfcf_a', 40 * m), ('hadrons', 40 * m),
-            ('options', 13 * len(OPTION_KINDS) * m), ('history', 5 * h * m), ('hard', 16 * h * m), ('scale', 17 * h * m),
+            ('options', 10 * len(OPTION_KINDS) * m), ('history', 5 * h * m), ('hard', 16 * h * m), ('scale', 17 * h * m),
             ('spectators', 17 * h * m), ('many', 2 * h * m),
-            ('distil', 50 * m), ('npr_externalleg', 36 * m), ('npr_bilinear', 36 * m), ('npr_fourquark', 50 * m)]
+            ('distil', 34 * m), ('npr_externalleg', 30 * m), ('npr_bilinear', 26 * m), ('npr_fourquark', 34 * m),
+            ('pbp', 40 * m), ('flow_hd5', 30 * m), ('fallback_rwms', 20 * m), ('fallback_qtop', 20 * m), ('check_idl', 10 * m)]
 
 
 def run_case(ctx, kind, idx, rng):
@@ -3001,3 +3567,11 @@ def _run_case(ctx, kind, idx, rng):
         case_distil(ctx, rng)
     elif kind.startswith('npr_'):
         case_npr(ctx, rng, kind[4:])
+    elif kind == 'pbp':
+        case_pbp(ctx, rng)
+    elif kind == 'flow_hd5':
+        case_flow_hd5(ctx, rng)
+    elif kind.startswith('fallback_'):
+        case_fallback_names(ctx, rng, kind[9:])
+    elif kind == 'check_idl':
+        case_check_idl(ctx, rng)
